@@ -67,7 +67,7 @@ def _case(draw):
                            "extra": draw(st.lists(ev, min_size=1, max_size=3))})
         return {"fam": fam, "et": et, "items": items, "builds": builds}
     if fam == "map":
-        kt, vt = draw(st.sampled_from([("Int", "Int"), ("String", "Int"), ("Int", "String"), ("String", "String")]))
+        kt, vt = draw(st.sampled_from([("Int", "Int"), ("String", "Int"), ("Int", "String"), ("String", "String"), ("Int", "Blob"), ("String", "Blob")]))
         uni = draw(maps.universe(kt, 4, 12))
         nk = draw(st.integers(0, len(uni) - 2))
         keys = uni[:nk]
@@ -285,11 +285,11 @@ def run_case(ctx, case):
             for n_, i in enumerate(b["order"]):
                 if n_ == at:
                     for d in b["detour"]:
-                        P.add("set %%%d %s %s" % (tgt, case["extra"][d], vals[0] if vals else {"Int": "i:1", "String": "s:78"}[vt]))
+                        P.add("set %%%d %s %s" % (tgt, case["extra"][d], vals[0] if vals else {"Int": "i:1", "String": "s:78", "Blob": "b:" + "5a" * 16}[vt]))
                 P.add("set %%%d %s %s" % (tgt, keys[i], vals[i]))
             if at >= len(keys):
                 for d in b["detour"]:
-                    P.add("set %%%d %s %s" % (tgt, case["extra"][d], {"Int": "i:1", "String": "s:78"}[vt]))
+                    P.add("set %%%d %s %s" % (tgt, case["extra"][d], {"Int": "i:1", "String": "s:78", "Blob": "b:" + "5a" * 16}[vt]))
             for d in sorted(set(b["detour"])):
                 P.add("rem %%%d %s" % (tgt, case["extra"][d]))
             if b["via"] == "copy":
@@ -297,7 +297,7 @@ def run_case(ctx, case):
             elif b["via"] == "assign":
                 P.add("new %%%d heap t:%s t:%s t:%s" % (slot, b["kind"], kt, vt))
                 if case["extra"]:
-                    P.add("set %%%d %s %s" % (slot, case["extra"][0], {"Int": "i:1", "String": "s:78"}[vt]))
+                    P.add("set %%%d %s %s" % (slot, case["extra"][0], {"Int": "i:1", "String": "s:78", "Blob": "b:" + "5a" * 16}[vt]))
                 P.add("assign %%%d %%%d" % (slot, tgt), lambda o: None if o.startswith("ok") else "assign failed: " + o)
         mk(0, case["builds"][0])
         mk(1, case["builds"][1])
